@@ -7,12 +7,19 @@ def run(tier):
                 unwind_is_violation=True, max_depth=40)
     jobs = []
     q = tier == "quick"
-    for keys in ([1, 2, 3] if q else [0, 1, 2, 3]):
-        for vseg in ([1, 2] if q else [1, 2, 3]):
+    for keys in ([1, 2] if q else [0, 1, 2, 3]):
+        for vseg in ([1, 2] if q else [1, 2]):
             for sseg in ([1, 2] if q else [1, 2, 3]):
-                jobs.append(dict(base, harness="VerifC15Interpolate", params={"keys": keys, "vseg": vseg, "sseg": sseg}))
-    for n in range(0, (5 if q else 7) + 1):
-        for vn in ([0, 4] if q else [0, 3, 4, 5]):
+                vpats = range(0, 4 ** keys) if not q else [p for p in range(0, 4 ** keys) if p % 3 != 1]
+                for vpat in vpats:
+                    # every value pattern must fit vseg bits per key
+                    if any(((vpat >> (2 * k)) & 3) >= (1 << vseg) for k in range(keys)):
+                        continue
+                    for spat in range(1, 1 << sseg):
+                        jobs.append(dict(base, harness="VerifC15Interpolate",
+                                         params={"keys": keys, "vseg": vseg, "sseg": sseg, "vpat": vpat, "spat": spat}))
+    for n in range(0, (4 if q else 6) + 1):
+        for vn in ([0, 4] if q else [0, 4, 5]):
             jobs.append(dict(base, harness="VerifC15ArbitraryBytes", params={"n": n, "vn": vn}))
     jobs.append(dict(base, harness="VerifC15PropertyPrecedence", params={}))
     return run_property("C15", tier, [Group("maven", jobs)],
